@@ -391,7 +391,7 @@ def run_one(index, seed, runner, tier, opts):
             counters["faults_fired"][lab] = counters["faults_fired"].get(lab, 0) + 1
         distinct.add(f"{_optsig(op)}|{op['_tag'].split(':')[0]}|{cls}|{op.get('_faultclass', 'none')}")
         for v in viols[:1]:
-            case = {"files": {p: util.enc_content(c) for p, c in files.items()}, "ops": [copy.deepcopy(op)], "extra": {}}
+            case = {"files": {p: util.enc_content(c) for p, c in files.items()}, "ops": [copy.deepcopy(op)], "extra": {"seed": seed}}
             violations.append({"case": case, "violation": v})
         if (index * n + k) % cal_every == 0:
             try:
@@ -418,5 +418,5 @@ def run_one(index, seed, runner, tier, opts):
 def evaluate(case, runner):
     runner.state = {}
     op = case["ops"][-1]
-    viols, _got, _rb, _rl, _res = check_invocation(case["files"], op, runner)
+    viols, _got, _rb, _rl, _res = check_invocation(case["files"], op, runner, int((case.get("extra") or {}).get("seed") or 0))
     return viols
